@@ -108,6 +108,10 @@ def step (line : String) : String :=
   | ["h", x] => match ofHex? x with
     | some m => s!"{hex (blake2b8 m)} {hex (blake2b128 m)} {hex (blake2bHash m)} {hex (keccak256 m)} {hex (twox64 m)} {hex (twox128 m)} {hex (twox256 m)} {hex (sha256 m)}"
     | none => "bad-op"
+  | ["hc", x] => match ofHex? x with
+    -- the same digests; the helpers must be pure functions of the message also under concurrency
+    | some m => s!"{hex (blake2b8 m)} {hex (blake2b128 m)} {hex (blake2bHash m)} {hex (keccak256 m)} {hex (twox64 m)} {hex (twox128 m)} {hex (twox256 m)} {hex (sha256 m)} conc=ok"
+    | none => "bad-op"
   | ["ed", pk, m, sg] => match ofHex? pk, ofHex? m, ofHex? sg with
     | some pk, some m, some sg =>
       let go := ed25519VerifyGo pk m sg
